@@ -102,7 +102,14 @@ MANIFEST = dict(
          "name being a list, '//*/name/sub' returns exactly, in document order, the entries sub of the dictionaries called name at "
          "any depth under their canonical xpaths - a name that is a final element is a miss of that branch and the search goes "
          "on (this is where fix C19-d enters the proof: fat_self_check). "
-         "NOT proved, checked on the implementation only: two-step tails with lists under name or on list roots (evaluator "
+         "C19_descendant_tail_lists / C19_descendant_tail_lists_list_root (Proofs/FindAllTailLists.lean): the same without the "
+         "hypothesis about lists - dict root and list root (n0list) with KeysOkV, ContOkV only: exactly tailOfL sub (descV name root), "
+         "the DFS reference that fans out over a list called name in element order (lists of lists recursively, keys "
+         ".../name[i]/sub, .../name[i][j]/sub), unbounded in size and depth; C19_descendant_tail_lists_distinct (no position twice, "
+         "all plain), C19_descendant_tail_lists_agrees (= tailOf when no node called name is a list), "
+         "C19_descendant_tail_lists_positions / _iff / _iff_list_root (found iff the node at a position ...name, any number of list "
+         "indexes, sub - getAt, both inclusions). "
+         "NOT proved, checked on the implementation only: tails of three and more steps (evaluator "
          "descendant against a DFS oracle that fans out over lists + streams; soundness of every result is C19_keys_spell), "
          "object identity (`is`), and that the real code does not write "
          "into the tree (the model is a pure function that does not thread the tree). The model is compared with the real "
